@@ -23,6 +23,9 @@ struct Params {
     pending_budget: usize,
     /// use emit_signal / call-less API instead of prebuilt messages
     api: bool,
+    /// every other message (i + j odd) has no body at all and is a method call with the
+    /// no-reply flag instead of a signal: the smallest messages the connection sends
+    bodyless_mix: bool,
 }
 
 fn scenario(p: Params) -> ExecResult {
@@ -55,7 +58,14 @@ fn scenario(p: Params) -> ExecResult {
         let mut msgs = vec![];
         for j in 0..p.per_sender {
             let body = "x".repeat(3 + 5 * i + 11 * j);
-            let m = if p.fd_sender == Some(i) && j == 0 {
+            let m = if p.bodyless_mix && (i + j) % 2 == 1 {
+                Message::method_call("/p", format!("S{i}x{j}").as_str())
+                    .unwrap()
+                    .with_flags(zbus::message::Flags::NoReplyExpected)
+                    .unwrap()
+                    .build(&())
+                    .unwrap()
+            } else if p.fd_sender == Some(i) && j == 0 {
                 Message::signal("/p", "a.b", format!("S{i}x{j}").as_str())
                     .unwrap()
                     .build(&(Fd::from(fd.as_fd()), body))
@@ -216,6 +226,7 @@ fn params_from(j: &serde_json::Value) -> Params {
         fd_sender: j["fd_sender"].as_u64().map(|x| x as usize),
         pending_budget: j["pending_budget"].as_u64().unwrap_or(1) as usize,
         api: j["api"].as_bool().unwrap_or(false),
+        bodyless_mix: j["bodyless_mix"].as_bool().unwrap_or(false),
     }
 }
 
@@ -232,22 +243,27 @@ pub fn main(args: &Args) -> i32 {
     let scenarios: Vec<(&str, Params, Vec<Option<usize>>)> = vec![
         (
             "2x1",
-            Params { senders: 2, per_sender: 1, fd_sender: None, pending_budget: 1, api: false },
+            Params { senders: 2, per_sender: 1, fd_sender: None, pending_budget: 1, api: false, bodyless_mix: false },
             if quick { vec![Some(8)] } else { vec![Some(10), Some(11)] },
         ),
         (
             "2x2",
-            Params { senders: 2, per_sender: 2, fd_sender: Some(1), pending_budget: 2, api: false },
+            Params { senders: 2, per_sender: 2, fd_sender: Some(1), pending_budget: 2, api: false, bodyless_mix: false },
             if quick { vec![Some(6)] } else { vec![Some(8), Some(9)] },
         ),
         (
             "3x1-fd",
-            Params { senders: 3, per_sender: 1, fd_sender: Some(0), pending_budget: 2, api: false },
+            Params { senders: 3, per_sender: 1, fd_sender: Some(0), pending_budget: 2, api: false, bodyless_mix: false },
+            if quick { vec![Some(6)] } else { vec![Some(8), Some(9)] },
+        ),
+        (
+            "2x2-bodyless-mix",
+            Params { senders: 2, per_sender: 2, fd_sender: Some(0), pending_budget: 2, api: false, bodyless_mix: true },
             if quick { vec![Some(6)] } else { vec![Some(8), Some(9)] },
         ),
         (
             "2x2-api",
-            Params { senders: 2, per_sender: 2, fd_sender: None, pending_budget: 2, api: true },
+            Params { senders: 2, per_sender: 2, fd_sender: None, pending_budget: 2, api: true, bodyless_mix: false },
             if quick { vec![Some(6)] } else { vec![Some(8)] },
         ),
     ];
@@ -261,7 +277,7 @@ pub fn main(args: &Args) -> i32 {
             &report,
             &totals,
             name,
-            json!({"senders": p.senders, "per_sender": p.per_sender, "fd_sender": p.fd_sender, "pending_budget": p.pending_budget, "api": p.api}),
+            json!({"senders": p.senders, "per_sender": p.per_sender, "fd_sender": p.fd_sender, "pending_budget": p.pending_budget, "api": p.api, "bodyless_mix": p.bodyless_mix}),
             &plan,
             move || scenario(p),
         );
